@@ -19,6 +19,10 @@ visited category with the reset function's own answers (the Lean model's veto ta
 A third family, also oracle-only, is the RE-ENTRANT reset function (`gen_reenter`): it trains the very estimator whose
 step is still searching (nested partial_fit / step_fit of anchor rows), so a category can be added between the moment the
 step started and the moment it creates its own; the map clauses of the statement are checked at every quiescent point.
+A fourth family, oracle-only too, has SEVERAL hosts (`gen_shared`): host j>0 wraps copy.copy / copy.deepcopy of the base
+module of an earlier host (a shallow copy of a trained module shares its W list, counters, labels_ and params dict); the
+hosts are trained in an interleaved schedule and after every training call the map / label / predict clauses of the
+statement are evaluated on every host, the ones the call did not train included.
 """
 from __future__ import annotations
 
@@ -35,9 +39,11 @@ from ..impl import make, Recorder, StepRec, step_table, sorted_live, quiet, exc_
 RULE = ("cases = (base class, base hyper-parameters, rho_lower_bound, data set, match-tracking mode, epsilon, "
         "veto table by cluster label, reset function keyed on the category (index / weight / match value), reset function that "
         "re-enters the estimator (nested partial_fit/step_fit of anchor rows while a step is searching) or none, call "
-        "history fit/partial_fit/predict/re-fit); a case is non-trivial when a step visited >= 2 categories, spawned a "
+        "history fit/partial_fit/predict/re-fit) or (two or three hosts, host j>0 over copy.copy / deepcopy of an earlier "
+        "host's base module taken before or after its training, interleaved schedule of their training calls); a case is non-trivial when a step visited >= 2 categories, spawned a "
         "category, met a veto, two categories of one cluster got different verdicts, or a nested call added a category "
-        "while the step was searching and the step then created one too; distinct by hash of all of these")
+        "while the step was searching and the step then created one too, or a host was checked after a training call of "
+        "another host whose base module shared its W list when the copy was taken; distinct by hash of all of these")
 
 SIG_F18 = "DualVigilanceART.step_fit:nonpositive-activation-not-visited"
 SIG_LOWERED = "DualVigilanceART.step_fit:reset+tracking:absorbed-below-configured-rho"
@@ -385,6 +391,231 @@ def run_reentrant(ctx, case, idx):
         cov.hit("reentrant-reset:answer:" + plan["answer"])
         cov.hit("reentrant-reset:mode:" + mode)
         cov.hit("reentrant-reset:class:" + cls)
+
+
+# ---------------------------------------------------------------- hosts whose base modules share state (copy.copy)
+LINK_BEFORE = "copy.copy-before-training"
+LINKS = ("copy.copy", "copy.copy", "copy.copy", "copy.copy", "copy.deepcopy", LINK_BEFORE)
+SHARED_DOC = (
+    "Several DualVigilanceART hosts, host 0 over a fresh base module make(spec), host j>0 over a copy of the base module "
+    "of host `wraps.parent`: copy.copy(parent.base_module) taken when the schedule says so (the parent has been trained "
+    "through its host by then: the shallow copy shares the parent's W list, counter list, labels_ array and params dict), "
+    "copy.deepcopy (control: shares nothing) or copy.copy taken before any training (shares the params dict only).  "
+    "`schedule` is executed in order: ['wrap', j] builds DualVigilanceART(<copy>, hosts[j].rho_lower_bound); "
+    "[kind, j, a, b] calls hosts[j].fit / .partial_fit(hosts[j].X[a:b], match_reset_func, match_tracking=mode, "
+    "epsilon=eps); the first training call of a host over a trained copy is always fit (a fresh start).  "
+    "match_reset_func of host j is None or lambda x, w, label, params, cache: C13.shared_permit(hosts[j].reset, x, label).  "
+    "After every training call the clauses of the statement are evaluated on EVERY host trained so far: map total over "
+    "len(base_module.W), map values exactly 0..n_clusters-1, labels_ and predict(rows seen + probe rows) inside the map's "
+    "values, predict does not raise, entries of the map never change (except by the host's own fit).")
+
+
+def shared_permit(rs, x, label):
+    """the reset function of a host in the shared-module family: a fixed function of (sample, CLUSTER label)"""
+    h = hashlib.blake2b(struct.pack("<Iq", rs["salt"], int(label)) + np.asarray(x, dtype=float).tobytes(),
+                        digest_size=4).digest()
+    return int.from_bytes(h, "big") / 2.0 ** 32 < rs["p_permit"]
+
+
+def gen_shared(r, i, nmax):
+    """two or three hosts and a schedule (see SHARED_DOC), as data"""
+    cls = specs.ELEM[i % len(specs.ELEM)]
+    mode = MODES[(i // len(specs.ELEM)) % 5]
+    d = r.randint(1, 3)
+    spec = specs.elem_spec(r, cls, d)
+    if spec["rho"] <= 0:
+        spec["rho"] = r.choice([0.25, 0.5, 0.75, 0.875, 1.0])
+    rho = spec["rho"]
+    lbs = [0.0, 0.0, rho / 2, rho / 4, rho * 0.875] + ([0.125] if rho > 0.125 else [])
+    floats = r.random() < 0.25 and cls != "ART1"
+    eps = r.choice([0.0, 2.0 ** -20, 2.0 ** -10, 1e-10, 0.125])
+    nh = r.choice([2, 2, 2, 3])
+    hosts, queues = [], []
+    for j in range(nh):
+        n = r.randint(1, nmax)
+        X = specs.elem_data(r, cls, n, d, style=r.choice([None, None, "corners", "coarse", "dups"]), floats=floats)
+        q, a = [], 0
+        for p in gen.compositions(r, n):
+            q.append([r.choice(["pfit", "pfit", "fit"]), j, a, a + p])
+            a += p
+        wraps = None
+        if j > 0:
+            how = r.choice(LINKS)
+            wraps = {"parent": 0 if how == LINK_BEFORE else r.randrange(j), "how": how}
+            if how != LINK_BEFORE:
+                q[0][0] = "fit"          # a host over an already trained module starts afresh
+        reset = {"salt": r.getrandbits(32), "p_permit": r.choice([0.3, 0.5, 0.7, 0.85])} if r.random() < 0.35 else None
+        hosts.append({"rho_lower_bound": float(r.choice(lbs)), "X": X, "wraps": wraps, "reset": reset,
+                      "probe": specs.elem_data(r, cls, 2, d, floats=floats)})
+        queues.append(([["wrap", j]] if j > 0 else []) + q)
+    # schedule: copies "before training" first, then a random merge in which a copy of a trained module is taken only once
+    # its parent has been trained
+    sched, trained = [], [False] * nh
+    for j in range(1, nh):
+        if hosts[j]["wraps"]["how"] == LINK_BEFORE:
+            sched.append(queues[j].pop(0))
+    while any(queues):
+        ready = [j for j in range(nh) if queues[j]
+                 and (queues[j][0][0] != "wrap" or trained[hosts[j]["wraps"]["parent"]])]
+        j = r.choice(ready)
+        ev = queues[j].pop(0)
+        sched.append(ev)
+        if ev[0] != "wrap":
+            trained[j] = True
+    return dict(cls=cls, mode=mode, d=d, spec=spec, eps=eps, hosts=hosts, schedule=sched)
+
+
+def run_shared(ctx, case, idx):
+    """Oracle-only (the Lean model is a model of ONE estimator): the structural clauses of the statement executed on every
+    host after every training call of any host.  A host that was not trained by the call took no sample: its map, its
+    categories' clusters and the validity of its predictions are what they were."""
+    import copy as _copy
+    cov = ctx.cov
+    cls, mode, spec, eps, hosts, sched = (case[k] for k in ("cls", "mode", "spec", "eps", "hosts", "schedule"))
+    rep = {"case": idx, "class": cls, "spec": spec, "mode": mode, "eps": eps, "hosts": hosts, "schedule": sched,
+           "doc": SHARED_DOC}
+    key = ("shared", cls, spec, mode, eps, [(h["rho_lower_bound"], h["X"].tolist(), h["wraps"], h["reset"]) for h in hosts],
+           sched)
+    PRE = "DualVigilanceART:shared-base-module:"
+    nh = len(hosts)
+    dual, seen, known, shares = [None] * nh, [[] for _ in range(nh)], [None] * nh, [False] * nh
+    dead = set()
+    try:
+        with quiet():
+            dual[0] = DualVigilanceART(make(spec), hosts[0]["rho_lower_bound"])
+    except Exception as e:
+        ctx.issue("violation", f"DualVigilanceART.__init__:{cls}:{exc_enum(e)}",
+                  f"constructor raised {e!r} for rho={spec['rho']} > rho_lower_bound={hosts[0]['rho_lower_bound']} >= 0", rep)
+        cov.case(key, False)
+        return
+
+    def name(j):
+        return f"host {j}"
+
+    def nW(j):
+        b = dual[j].base_module
+        return len(b.W) if "W" in b.__dict__ else 0
+
+    def clauses(j, k, ev, touched):
+        """the statement's structural clauses on host j after event k; returns True iff all hold"""
+        who = "trained-host" if touched else "untouched-host"
+        n, cmap = nW(j), dict(dual[j].map)
+        where = (f"after event {k} {ev} ({'its own training call' if touched else 'a training call of ' + name(ev[1])}), "
+                 f"{name(j)}" + (f" (over {hosts[j]['wraps']['how']} of the base module of {name(hosts[j]['wraps']['parent'])})"
+                                 if hosts[j]["wraps"] else ""))
+        srep = dict(rep, failing_event=k, failing_host=j, map=cmap, n_categories=n)
+        P = np.vstack(seen[j] + [hosts[j]["probe"]])
+        ok = True
+        if sorted(cmap) != list(range(n)):
+            missing, extra = sorted(set(range(n)) - set(cmap)), sorted(set(cmap) - set(range(n)))
+            try:
+                with quiet():
+                    cons = f"predict returns {[int(t) for t in dual[j].predict(P)]}"
+            except Exception as e:
+                cons = f"predict raises {e!r}"
+            ctx.issue("violation", PRE + who + ":map-not-total",
+                      f"{where}: {n} categories in its base module, map keys {sorted(cmap)}: categories without a cluster "
+                      f"{missing}, keys that are no category {extra}; {cons}", dict(srep, predict_on=P))
+            return False
+        vals = sorted(set(cmap.values()))
+        if vals != list(range(len(vals))) or len(vals) != dual[j].n_clusters:
+            ctx.issue("violation", PRE + who + ":map-values-not-contiguous",
+                      f"{where}: map values {vals}, n_clusters {dual[j].n_clusters}", srep)
+            ok = False
+        if known[j] is not None:
+            moved = {c: (v, cmap.get(c)) for c, v in known[j].items() if cmap.get(c) != v}
+            if moved or (not touched and cmap != known[j]):
+                ctx.issue("violation", PRE + who + ":map-entry-changed",
+                          f"{where}: map was {known[j]}, is {cmap} (category: before, after) {moved}", srep)
+                ok = False
+        lab = [int(t) for t in dual[j].labels_]
+        if any(t not in vals for t in lab):
+            ctx.issue("violation", PRE + who + ":label-not-a-cluster", f"{where}: labels_ {lab}, map values {vals}", srep)
+            ok = False
+        try:
+            with quiet():
+                y = [int(t) for t in dual[j].predict(P)]
+        except Exception as e:
+            ctx.issue("violation", PRE + who + f":predict:{cls}:{exc_enum(e)}",
+                      f"{where}: predict raised {e!r} on rows it was trained on / valid probe rows (map {cmap}, {n} categories)",
+                      dict(srep, predict_on=P))
+            return False
+        if any(t not in vals or not (0 <= t < dual[j].n_clusters) for t in y):
+            ctx.issue("violation", PRE + who + ":predicted-label-not-a-cluster",
+                      f"{where}: predicted {y}, map values {vals}, n_clusters {dual[j].n_clusters}", dict(srep, predict_on=P))
+            ok = False
+        if ok:
+            known[j] = cmap
+        return ok
+
+    target = False
+    for k, ev in enumerate(sched):
+        j = ev[1]
+        if j in dead:
+            continue
+        if ev[0] == "wrap":
+            w = hosts[j]["wraps"]
+            p = w["parent"]
+            if p in dead:
+                dead.add(j)
+                continue
+            pb = dual[p].base_module
+            try:
+                with quiet():
+                    cp = _copy.deepcopy(pb) if w["how"] == "copy.deepcopy" else _copy.copy(pb)
+                    dual[j] = DualVigilanceART(cp, hosts[j]["rho_lower_bound"])
+            except Exception:
+                # the statement does not say that a host can be built over a module that has a past
+                cov.hit("shared-base-module:wrap-rejected")
+                dead.add(j)
+                continue
+            shares[j] = "W" in pb.__dict__ and cp.__dict__.get("W") is pb.__dict__["W"]
+            cov.hit("shared-base-module:link:" + w["how"])
+            if shares[j]:
+                cov.hit("shared-base-module:copy-shares-the-W-list-of-a-trained-module")
+                if len(pb.W) > 0:
+                    cov.hit("shared-base-module:copy-of-a-module-with-categories")
+            continue
+        kind, _, a, b = ev
+        B = hosts[j]["X"][a:b]
+        rs = hosts[j]["reset"]
+        reset = None if rs is None else (lambda i_, w_, c_, params, cache, rs=rs: shared_permit(rs, i_, c_))
+        try:
+            with quiet():
+                if kind == "fit":
+                    dual[j].fit(B, match_reset_func=reset, match_tracking=mode, epsilon=eps)
+                else:
+                    dual[j].partial_fit(B, match_reset_func=reset, match_tracking=mode, epsilon=eps)
+        except Exception as e:
+            ctx.issue("violation", PRE + f"{kind}:{cls}:{exc_enum(e)}",
+                      f"event {k} {ev}: training of {name(j)} raised {e!r} on validated data (mode {mode}, "
+                      f"reset={rs is not None}; map {dict(dual[j].map)}, {nW(j)} categories)", dict(rep, failing_event=k))
+            break
+        if kind == "fit":
+            seen[j], known[j] = [], None
+        seen[j].append(B)
+        cov.hit("shared-base-module:" + kind)
+        others = [h for h in range(nh) if h != j and dual[h] is not None and h not in dead and seen[h]]
+        ok = clauses(j, k, ev, True)
+        for h in others:
+            ok = clauses(h, k, ev, False) and ok
+            cov.hit("shared-base-module:untouched-host-checked")
+            # the two hosts are related by a copy that shared the W list when it was taken
+            rel = (shares[h] and hosts[h]["wraps"]["parent"] == j) or (shares[j] and hosts[j]["wraps"]["parent"] == h)
+            if rel:
+                target = True
+                cov.hit("shared-base-module:untouched-host-checked:related-by-a-sharing-copy")
+                if nW(h) != nW(j):
+                    cov.hit("shared-base-module:related-hosts-with-different-numbers-of-categories")
+        if not ok:
+            break
+    cov.case(key, target)
+    cov.hit("shared-base-module")
+    cov.hit("shared-base-module:class:" + cls)
+    cov.hit("shared-base-module:mode:" + mode)
+    cov.hit(f"shared-base-module:hosts:{nh}")
+    if any(h["reset"] is not None for h in hosts):
+        cov.hit("shared-base-module:reset")
 
 
 def split_mseq(st, has_reset):
@@ -949,6 +1180,10 @@ def run(ctx):
         case["vt"] = None
         case["anchors"], case["reenter"] = gen_reenter(r, case)
         run_reentrant(ctx, case, 3 * 10 ** 6 + i)
+    # hosts whose base modules share state through copy.copy of a trained module (oracle-only, see run_shared)
+    for i in range(ctx.scale(320, 1500)):
+        r = gen.rng_for(ctx.seed, "C13-shared-base-module", i)
+        run_shared(ctx, gen_shared(r, i, ctx.scale(12, 30)), 4 * 10 ** 6 + i)
     outs = run_driver(lines)
     for line, out, (rep, exp_out, cls) in zip(lines, outs, expect):
         compare(ctx, rep, exp_out, out, cls, line)
